@@ -50,7 +50,8 @@ func (t *WebsocketTransport) Connect() (string, error) {
 	})
 
 	if err != nil {
-		return "", NewConnError(err, true)
+		// The server cannot be reached right now: worth another attempt later
+		return "", NewConnError(err, false)
 	}
 	if response.Header.Get("Sec-WebSocket-Protocol") != "xmpp" {
 		t.cleanup(websocket.StatusBadGateway)
@@ -70,7 +71,7 @@ func (t *WebsocketTransport) Connect() (string, error) {
 func (t WebsocketTransport) StartStream() (string, error) {
 	if _, err := fmt.Fprintf(t, `<open xmlns="urn:ietf:params:xml:ns:xmpp-framing" to="%s" version="1.0" />`, t.Config.Domain); err != nil {
 		t.cleanup(websocket.StatusBadGateway)
-		return "", NewConnError(err, true)
+		return "", NewConnError(err, false)
 	}
 
 	sessionID, err := stanza.InitStream(t.GetDecoder())
